@@ -376,23 +376,32 @@ Definition mres_eqb (a b : mres) : bool :=
 Definition unambiguous (cands : list mres) : bool :=
   match cands with [] => true | c :: r => forallb (mres_eqb c) r end.
 
+(* only a line with ": " or " = " can contain a field marker (Proofs: candidates_prefilter) *)
+Definition relevant_line (l : string) : bool := contains ": " l || contains " = " l.
+
+(* per field: i when the client's result is not a candidate of the model, 5000+i when the candidates
+   disagree among themselves (the value depends on the line set.pop() returns) *)
 Fixpoint check_fields_from (i : nat) (fs : list fieldspec) (lines : list string) (impl : list (option ires))
   : list nat :=
   match fs, impl with
   | f :: fs', r :: impl' =>
-      let rest := check_fields_from (S i) fs' lines impl' in
-      if agree_field (candidates_of f lines) r then rest else i :: rest
+      let cands := candidates_of f lines in
+      ((if agree_field cands r then [] else [i]) ++ (if unambiguous cands then [] else [5000 + i]%nat)
+       ++ check_fields_from (S i) fs' lines impl')%list
   | [], [] => []
   | _, _ => [i]
   end.
-(* indices of the fields on which the client's result is not a candidate of the model *)
 Definition check_fields (fs : list fieldspec) (text : string) (impl : list (option ires)) : list nat :=
-  check_fields_from 0 fs (readlines text) impl.
+  check_fields_from 0 fs (filter relevant_line (readlines text)) impl.
 
 (* indices of the fields whose value depends on the line chosen by set.pop() *)
 Definition ambiguous_fields (fs : list fieldspec) (text : string) : list nat :=
   let lines := readlines text in
   mismatches (fun f => unambiguous (candidates_of f lines)) 0 fs.
+
+(* the report text from its lines (how the harness hands a report to the kernel) *)
+Fixpoint join_nl (lines : list string) : string :=
+  match lines with [] => "" | l :: r => l ++ NL ++ join_nl r end.
 
 (* ---------------------------------------------------------------- profile tables *)
 
@@ -671,6 +680,18 @@ Definition agree_csv (m : option (list (csvrow string))) (i : option (list (csvr
   | _, _ => false
   end.
 
+(* csv rows as the harness hands them over: consecutive rows sharing category, field and unit *)
+Fixpoint expand_group (cat field unit : string) (cells : list (option string * string)) : list (csvrow string) :=
+  match cells with
+  | [] => []
+  | (y, v) :: r => CSV cat field y v unit :: expand_group cat field unit r
+  end.
+Fixpoint expand_groups (gs : list (string * string * string * list (option string * string))) : list (csvrow string) :=
+  match gs with
+  | [] => []
+  | (cat, field, unit, cells) :: r => (expand_group cat field unit cells ++ expand_groups r)%list
+  end.
+
 (* ---------------------------------------------------------------- the .json next to the report *)
 
 (* the printed decimal m*10^e is the quantity q rounded to that many places (half an ulp, plus the
@@ -692,3 +713,118 @@ Fixpoint render_row (lead : string) (cells : list (string * string)) : string :=
   | [] => lead
   | (tok, sep) :: r => lead ++ tok ++ render_row sep r
   end.
+
+(* ---------------------------------------------------------------- the whole constructor, against the client *)
+
+Fixpoint index_of (x : string) (l : list string) : option nat :=
+  match l with
+  | [] => None
+  | y :: r => if String.eqb x y then Some O else match index_of x r with Some k => Some (S k) | None => None end
+  end.
+
+Fixpoint indices_of (xs l : list string) : option (list nat) :=
+  match xs with
+  | [] => Some []
+  | x :: r => match index_of x l, indices_of r l with Some i, Some is => Some (i :: is) | _, _ => None end
+  end.
+
+(* hard-coded tables of the client (regenerated from its source: Gen/C10Fields.v) *)
+Record client_tables : Type := CT {
+  ct_fields : list fieldspec;
+  ct_revenue_headers : list string;
+  ct_carbon_headers : list string;
+  ct_carbon_price_field : string;
+  ct_ccus_legacy_name : string
+}.
+
+(* _get_carbon_revenue_or_ccus_legacy_profile.
+   outer None: the constructor raises; Some (Some (legacy?, rows)); Some None: no such key *)
+Definition carbon_or_legacy (t : client_tables) (text : string) : option (option (bool * list (list mval))) :=
+  match addons_table (ct_ccus_legacy_name t) text with
+  | Some rows => Some (Some (true, rows))
+  | None =>
+      match revenue_table text with
+      | None => Some None
+      | Some rows =>
+          match index_of (ct_carbon_price_field t) (ct_revenue_headers t) with
+          | None => None                                   (* list.index raises ValueError outside any try *)
+          | Some cpi =>
+              match indices_of (ct_carbon_headers t) (ct_revenue_headers t) with
+              | None => match carbon_view cpi [] rows with Some (Some _) => Some None | Some None => Some None | None => None end
+              | Some idx =>
+                  match carbon_view cpi idx rows with
+                  | None => None
+                  | Some None => Some None
+                  | Some (Some r) => Some (Some (false, r))
+                  end
+              end
+          end
+      end
+  end.
+
+(* what the client returned for one report *)
+Record impl_report : Type := IRep {
+  ir_fields : list (option ires);
+  ir_power : option (list string * list (list ival));
+  ir_heat : option (list string * list (list ival));
+  ir_extended : option (list (list ival));
+  ir_revenue : option (list (list ival));
+  ir_carbon : option (bool * list (list ival));
+  ir_sdacgt : option (list (list ival))
+}.
+
+Definition agree_carbon (m : option (bool * list (list mval))) (i : option (bool * list (list ival))) : bool :=
+  match m, i with
+  | None, None => true
+  | Some (a, r), Some (b, r') => Bool.eqb a b && agree_rows r r'
+  | _, _ => false
+  end.
+
+(* components of the result on which client and model differ: field index, or 1000.. for the profiles;
+   [raised] tells whether the constructor raised (then only that fact is compared: code 2000) *)
+Definition check_report (t : client_tables) (text : string) (raised : bool) (r : impl_report) : list nat :=
+  match carbon_or_legacy t text with
+  | None => if raised then [] else [2000%nat]
+  | Some carbon =>
+      if raised then [2000%nat] else
+      let power := production_profile "HEATING, COOLING AND/OR ELECTRICITY PRODUCTION PROFILE" "POWER GENERATION PROFILE" text in
+      let heat := match power with
+                  | None => None
+                  | Some _ => production_profile "ANNUAL HEATING, COOLING AND/OR ELECTRICITY PRODUCTION PROFILE"
+                                                 "HEAT AND/OR ELECTRICITY EXTRACTION AND GENERATION PROFILE" text
+                  end in
+      (check_fields (ct_fields t) text (ir_fields r)
+       ++ (if agree_profile power (ir_power r) then [] else [1000%nat])
+       ++ (if agree_profile heat (ir_heat r) then [] else [1001%nat])
+       ++ (if agree_table (addons_table "EXTENDED ECONOMIC PROFILE" text) (ir_extended r) then [] else [1002%nat])
+       ++ (if agree_table (revenue_table text) (ir_revenue r) then [] else [1003%nat])
+       ++ (if agree_carbon carbon (ir_carbon r) then [] else [1004%nat])
+       ++ (if agree_table (addons_table "S-DAC-GT PROFILE" text) (ir_sdacgt r) then [] else [1005%nat]))%list
+  end.
+
+(* ---------------------------------------------------------------- client fields against writer labels *)
+
+(* what the writer prints in front of a value: indentation, label, then ": " (kind 0) or " = " (kind 1) *)
+Definition label_prefix (l : nat * string * nat) : string :=
+  let '(n, lab, k) := l in spaces n ++ lab ++ (match k with O => ": " | _ => " = " end).
+
+Definition marker_of (f : fieldspec) : string :=
+  match fs_kind f with
+  | 2%nat => eq_marker (fs_name f)
+  | _ => field_marker (fs_indent f) (fs_name f)
+  end.
+
+(* the line carries the label of this very field *)
+Definition own_label (f : fieldspec) (l : nat * string * nat) : bool :=
+  let '(n, lab, k) := l in
+  match fs_kind f with
+  | 2%nat => String.eqb (lstrip (hd "" (split_str " = " (label_prefix l)))) (fs_name f)
+  | _ => Nat.eqb k 0 && String.eqb lab (fs_name f)
+  end.
+
+(* no field's marker occurs in the printed prefix of a line with another label, nor in any other literal line *)
+Definition no_foreign_match_table (fields : list fieldspec) (labels : list (nat * string * nat))
+           (others : list string) : bool :=
+  forallb (fun f =>
+             forallb (fun l => implb (contains (marker_of f) (label_prefix l)) (own_label f l)) labels
+             && forallb (fun o => negb (contains (marker_of f) o)) others) fields.
